@@ -47,8 +47,25 @@ class Lock:
 
 
 def run(cmd, cwd=None, timeout=3600, input=None):
-    p = subprocess.run(cmd, cwd=cwd, capture_output=True, text=True, timeout=timeout, input=input)
-    return p.returncode, p.stdout + p.stderr
+    """-> (rc, output).  A command that does not finish in `timeout` seconds is killed with everything it started (lake
+    starts one lean per module) and reported as rc 124: for a build that means "this module no longer checks in time" —
+    a proof about regenerated code can diverge when the code has changed — never an infrastructure error."""
+    import signal
+    p = subprocess.Popen(cmd, cwd=cwd, stdout=subprocess.PIPE, stderr=subprocess.STDOUT, stdin=subprocess.PIPE if input is not None else None,
+                         text=True, start_new_session=True)
+    try:
+        out, _ = p.communicate(input, timeout=timeout)
+        return p.returncode, out or ""
+    except subprocess.TimeoutExpired:
+        try:
+            os.killpg(p.pid, signal.SIGKILL)
+        except OSError:
+            pass
+        try:
+            out, _ = p.communicate(timeout=30)
+        except Exception:  # noqa: BLE001
+            out = ""
+        return 124, (out or "")[-3000:] + f"\nerror: {' '.join(cmd)[:200]} did not finish within {timeout} s (killed)"
 
 
 def strip_comments(src: str) -> str:
@@ -137,7 +154,7 @@ def build_and_audit(prop_files: list[str], leanchecker: bool = False) -> ProofSt
             names = theorems_of(rel)
             st.obligations += names
             mod = module_of(rel)
-            rc, log = run(["lake", "build", mod], cwd=LEAN)
+            rc, log = run(["lake", "build", mod], cwd=LEAN, timeout=int(os.environ.get("VERIF_BUILD_TIMEOUT", "1200")))
             if rc != 0:
                 st.build_log += log[-6000:]
                 # which theorems fail?  Lean reports `error: file:line:col` — map lines to theorems
